@@ -9,6 +9,7 @@ mod m_intres;
 mod m_cstr;
 mod m_cb;
 mod m_slice;
+mod m_waker;
 
 use std::io::{BufRead, Write};
 
@@ -66,6 +67,7 @@ fn main() {
             13 => m_intres::run(&hdr[1..], &rows_in, &mut mon),
             14 => m_cstr::run(&hdr[1..], &rows_in, &mut mon),
             15 => m_cb::run(&hdr[1..], &rows_in, &mut mon),
+            19 => m_waker::run(&hdr[1..], &rows_in, &mut mon),
             _ => vec![vec![-3]],
         };
         alloc::domain(0);
